@@ -132,5 +132,29 @@ def run(repo, rep, tier):
             "overwrite-before-read over counted loops, from the clang AST).")
 
 
+def accessor_state(repo, eng, cls):
+    """Shared: derived state kept on a cached accessor class -> list of (file, line, func, construct, why)."""
+    out, seen = [], set()
+    for mname, fi in cls.methods.items():
+        for d in fi.decorators:
+            if any(d == x or d.startswith(x + "(") for x in CACHING_DECORATORS):
+                out.append((fi.file, fi.node.lineno, fi.qualname, f"@{d} def {mname}", "memoised on the cached accessor instance"))
+        s = eng.summ[fi.qualname]
+        for fw in s.field_writes:
+            tag, f, ln, cons, dep, isparam = (tuple(fw) + (True, False))[:6]
+            init = tag.startswith("__init__:")
+            if (f, ln) in seen or "_wrapper" in cons or "setattr(self, method_name" in cons:
+                continue
+            if init and (isparam or not dep or mname != "__init__"):
+                continue
+            seen.add((f, ln))
+            out.append((f, ln, fi.qualname, cons, "instance attribute holding state derived from the wrapped object"))
+        for (r, rp), eff in s.effects.items():
+            if r.startswith("selfstate:") and mname != "__init__" and (eff.file, eff.line) not in seen:
+                seen.add((eff.file, eff.line))
+                out.append((eff.file, eff.line, fi.qualname, eff.construct, f"mutates accessor instance state {r[10:]} at call time"))
+    return out
+
+
 def _origin(cons, fi):
     return fi.name
